@@ -190,6 +190,13 @@ class C10(Check):
             plan["deaf_dsc"] = rng.random() < 0.4
         plan["reset"] = rng.random() < 0.2
         plan["scan_response_ids"] = rng.random() < 0.25
+        # model dimension "response code": implemented services that answer every request with one fixed NRC
+        # (never one of the three that mean "not supported / wrong length")
+        plan["quirks"] = []
+        if plan["scanner"] == "services" and rng.random() < 0.3:
+            cands = [(int(s_), int(k_)) for s_, sv_ in plan["model"].items() for k_ in sv_ if int(k_) not in (0x10, 0x11, 0x22, 0x3E)]
+            for s_, k_ in rng.sample(cands, min(len(cands), rng.choice([1, 2, 3]))):
+                plan["quirks"].append([s_, k_, rng.choice([0x21, 0x21, 0x22, 0x31, 0x33, 0x72, 0x12])])
         if plan["scanner"] == "identifiers":
             width = rng.choice([16, 64, 200, 400])
             if scanned == 0x27:
@@ -204,6 +211,11 @@ class C10(Check):
                 ids = sorted(rng.sample(range(start, min(end, start + 400) + 1), min(5, min(end, start + 400) - start + 1)))
                 plan["skip"][str(s)] = ids
             plan["payload"] = rng.choice([None, None, "00", "0102"]) if scanned != 0x2E else rng.choice(["00", "0102", "ffffffff"])
+        # identifiers answered busyRepeatRequest the first k times (the client repeats the request up to 3 times)
+        plan["busy_first"] = []
+        if plan["scanner"] == "identifiers" and rng.random() < 0.3:
+            for _ in range(rng.choice([1, 2, 4])):
+                plan["busy_first"].append([rng.randrange(plan["start"], plan["end"] + 1), rng.choice([1, 2, 3, 3, 4, 6])])
         plan["p_identifier"] = rng.choice([0.05, 0.3, 1.0])
         plan["p_format"] = rng.choice([0.3, 1.0])
         plan["tp"] = rng.choice([None, 0.05, 0.5])
@@ -249,6 +261,10 @@ class C10(Check):
     def _mk_ecu(self, plan: dict[str, Any]) -> ModelECU:
         model = {int(s): {int(k): v for k, v in sv.items()} for s, sv in plan["model"].items()}
         ecu = ModelECU(plan["ecu_seed"], model, {"p_identifier": plan["p_identifier"], "p_correct_payload_format": plan["p_format"]})
+        ecu.quirks = {(s_, k_): n_ for s_, k_, n_ in plan.get("quirks") or []}
+        for did, k in plan.get("busy_first") or []:
+            for pdu in self._id_probes(plan, did):
+                ecu.busy_first[pdu] = k
         if plan.get("deaf_dsc"):
             # after it fell back to the default session (reset), the ECU ignores the next session change request once
             orig = ecu.respond
@@ -268,6 +284,16 @@ class C10(Check):
 
             ecu.respond = respond  # type: ignore[method-assign]
         return ecu
+
+    @staticmethod
+    def _id_probes(plan: dict[str, Any], did: int) -> list[bytes]:
+        svc = plan["service"]
+        payload = bytes.fromhex(plan["payload"]) if plan.get("payload") else b""
+        if svc == 0x27:
+            return [bytes([svc, did & 0xFF]) + payload]
+        if svc == 0x31:
+            return [bytes([svc, sf, did >> 8, did & 0xFF]) + payload for sf in (1, 2, 3)]
+        return [bytes([svc, did >> 8, did & 0xFF]) + payload]
 
     def _run(self, plan: dict[str, Any], world: CmdWorld, res: dict[str, Any]) -> None:
         world.net.policy_factory = lambda i, d: Policy(seed=plan["net_seed"] + 2 * i + (d == "s2c"), segment=plan["segment"], lat_min=plan["lat"][0], lat_max=plan["lat"][1])
@@ -326,6 +352,10 @@ class C10(Check):
             bump(res["faults"], "ecu_drops_out_of_session_on_probe")
         if plan.get("skip_expr"):
             bump(res["faults"], "skip_as_range_expression")
+        if plan.get("quirks"):
+            bump(res["faults"], "service_with_fixed_negative_response_code")
+        if plan.get("busy_first"):
+            bump(res["faults"], "identifier_busy_at_first")
         if plan["tp"] is not None:
             bump(res["faults"], "tester_present_worker")
 
@@ -489,6 +519,10 @@ class C10(Check):
                 if found is None:
                     violation(res, "C10/identifiers", "C10/identifiers:identifier-not-probed", f"session {real:#x}: identifier probe {pdu.hex()} never reached the ECU (range {start:#x}-{end:#x})")
                     return
+                # a request the ECU called busy is repeated by the client: the answer to the last repeat is the one that counts
+                # (repeats happen inside one request, under the client mutex: nothing can come between them)
+                while found + 1 < len(log) and log[found + 1][1] == pdu:
+                    found += 1
                 s_before, _, rep = log[found]
                 if s_before != real:
                     violation(res, "C10/identifiers", "C10/identifiers:probed-in-wrong-session", f"probe {pdu.hex()} arrived while the ECU was in session {s_before:#x}, claimed {real:#x}")
